@@ -82,6 +82,7 @@ struct vin {
     int32_t  other_root;
     uint8_t  tp_known;            /* 0: the taskpool is not registered yet when the message arrives           */
     uint8_t  order;               /* which of the two delayed messages arrives first                          */
+    uint8_t  envc[6];             /* delayed path: what the application thread does at each environment step  */
     int32_t  env[2];              /* pending actions added / removed by other threads before my atomic step   */
 } vin;
 #include "verif_vin.h"
@@ -95,19 +96,66 @@ static parsec_termdet_user_trigger_monitor_t mon;
 static int     g_env_on, g_env_k;
 static int     g_lin;            /* my linearisation points on tp.nb_pending_actions */
 static int32_t g_pa_after;       /* counter value just after my atomic step           */
+/* ---- rely/guarantee for the delayed-message path (job msg_dispatch.delayed.rg) ----
+ * Shared: "taskpool registered" (parsec_taskpool_lookup), the monitor state, the delayed list (under its lock).
+ * Rely: whenever I do NOT hold the delayed-list lock, the application thread may register the taskpool and may
+ *       execute taskpool_ready() on it (the REAL function is run: NOT_READY -> BUSY, counts 'the tasks', scans the
+ *       delayed list under the list lock and dispatches every queued message of this taskpool), once.
+ *       While I hold the lock it can at most register the taskpool (its scan needs the lock). */
+static int g_rg_delayed;         /* this mode is on                                              */
+static int g_in_env;             /* the environment is running: its own atomics are not hook points */
+static int g_tp_registered;
+static int g_ready_done;         /* the application thread has executed taskpool_ready            */
+static int g_envc_k;
+static int g_holding;            /* I hold the delayed-list lock                                  */
+static int g_holds;              /* number of my holds of the delayed-list lock                   */
+static int g_len_at_lock;
+static int g_appended;           /* number of my holds in which the list grew                     */
+static int g_appended_when_ready;/* ... and the taskpool had already been made ready at the append */
+static int delayed_len(void);
+#define DELAYED_LOCK ((volatile void *)&parsec_termdet_user_trigger_delayed_messages.atomic_lock)
+static void env_application_thread(void)
+{
+    if (g_envc_k >= 6) return;
+    uint8_t c = vin.envc[g_envc_k++];
+    if (c >= 1) g_tp_registered = 1;
+    if (c >= 2 && !g_holding && !g_ready_done) {
+        g_in_env = 1;
+        parsec_termdet_user_trigger_taskpool_ready(&tp);
+        g_in_env = 0;
+        g_ready_done = 1;
+    }
+}
+
 void verif_env_step(int op, volatile void *loc)
 {
     (void)op;
+    if (g_in_env) return;
+    if (g_rg_delayed) { env_application_thread(); return; }
     if (g_env_on && loc == (volatile void *)&tp.nb_pending_actions && g_env_k < 2) {
         int32_t d = vin.env[g_env_k++];
-        V_ASSUME((int64_t)tp.nb_pending_actions + d >= 1 && (int64_t)tp.nb_pending_actions + d <= INT32_MAX);
+        /* while my unit is outstanding nobody else can bring the counter to 0; afterwards it only stays >= 0 */
+        V_ASSUME((int64_t)tp.nb_pending_actions + d >= (g_lin ? 0 : 1) && (int64_t)tp.nb_pending_actions + d <= INT32_MAX);
         tp.nb_pending_actions += d;
     }
 }
 void verif_own_step(int op, volatile void *loc, int success)
 {
+    if (g_in_env) return;
     if (loc == (volatile void *)&tp.nb_pending_actions && (op == V_OP_FETCH || (op == V_OP_CAS && success))) {
         g_lin++; g_pa_after = tp.nb_pending_actions;
+    }
+    if (g_rg_delayed && loc == DELAYED_LOCK) {
+        if (op == V_OP_LOCK) { g_holding = 1; g_holds++; g_len_at_lock = delayed_len(); }
+        if (op == V_OP_UNLOCK) {
+            /* the instant at which an append of this hold becomes visible to the scanning thread */
+            if (delayed_len() > g_len_at_lock) {
+                g_appended++;
+                if (g_tp_registered && tp.tdm.monitor != NULL && mon.state != PARSEC_TERMDET_USER_TRIGGER_NOT_READY)
+                    g_appended_when_ready++;
+            }
+            g_holding = 0;
+        }
     }
 }
 
@@ -133,6 +181,7 @@ static void build(int32_t root, int state)
     mon.root = root; mon.state = (parsec_termdet_user_trigger_state_t)state;
     parsec_ce.send_am = stub_send_am;
     g_nsent = 0; g_cb_calls = 0; g_cb_tp_ok = 0; g_env_on = 0; g_env_k = 0; g_lin = 0;
+    g_rg_delayed = 0; g_in_env = 0; g_ready_done = 0; g_envc_k = 0; g_holding = 0; g_holds = 0; g_appended = 0; g_appended_when_ready = 0;
 }
 
 /* the property's own vocabulary: rank of x in the world shifted so that the trigger is 0 */
@@ -343,7 +392,6 @@ void h_twice(void)
 /* ------------------------------------------------------------------------------------------------ */
 /* public receive entry parsec_termdet_user_trigger_msg_dispatch + taskpool_ready (delayed messages)  */
 /* ------------------------------------------------------------------------------------------------ */
-static int g_tp_registered;
 /* stub (trusted base; taskpool id resolution is property C37) */
 parsec_taskpool_t *parsec_taskpool_lookup(uint32_t id) { return (g_tp_registered && id == tp.taskpool_id) ? &tp : NULL; }
 
@@ -446,4 +494,48 @@ void h_forward(void)
     V_ASSERT(V_IMPLIES(vin.pa == 1, hits == (is_child(vin.t, vin.me) ? 1 : 0) && g_cb_calls == 1),
              "C12.msg_dispatch_taskpool.post.forwards_exactly_to_my_children_in_the_senders_tree");
     V_CANARY("forward");
+}
+
+/* ------------------------------------------------------------------------------------------------ */
+/* delayed path under interference: the communication thread runs msg_dispatch while the application  */
+/* thread registers the taskpool and makes it ready (real taskpool_ready) at any point where the      */
+/* delayed-list lock is free.  The notification must be handled exactly once whatever the timing.     */
+/* ------------------------------------------------------------------------------------------------ */
+void h_msg_delayed_rg(void)
+{
+    vin_load();
+    PRE_COUNTER();
+    V_ASSUME(0 <= vin.msg_root && vin.msg_root < vin.n && vin.pa >= 0 && vin.pa <= 1000);
+    build(PARSEC_TERMDET_USER_TRIGGER_UNKNOWN_RANK, PARSEC_TERMDET_USER_TRIGGER_NOT_READY);
+    tp.nb_tasks = PARSEC_UNDETERMINED_NB_TASKS; tp.nb_pending_actions = vin.pa;
+    g_tp_registered = 0; empty_delayed_list();
+    g_rg_delayed = 1;
+    parsec_termdet_user_trigger_msg_t m; m.tp_id = vin.tp_id; m.root = vin.msg_root;
+
+    env_application_thread();                 /* symbolic pre-state: unknown / registered / already ready */
+    int ready_before = g_ready_done;
+    int rc = parsec_termdet_user_trigger_msg_dispatch(&parsec_ce, PARSEC_TERMDET_USER_TRIGGER_MSG_TAG, &m, sizeof(m), 0, NULL);
+    int queued = g_appended, handled_directly = (tp.nb_tasks == 0) && !queued;
+
+    V_ASSERT(rc == PARSEC_SUCCESS && g_holding == 0, "C12.msg_dispatch.post.returns_success_with_the_list_lock_released");
+    V_ASSERT(g_appended_when_ready == 0, "C12.msg_dispatch.guar.message_queued_only_while_not_ready_under_the_same_lock_hold");
+    V_ASSERT(g_appended <= 1 && V_IMPLIES(g_appended == 1, delayed_len() == 1 || g_ready_done),
+             "C12.msg_dispatch.guar.message_queued_at_most_once");
+    V_ASSERT(V_IMPLIES(ready_before, !queued && g_holds == 0), "C12.msg_dispatch.post.ready_taskpool_never_queues");
+    V_ASSERT(queued || tp.nb_tasks == 0, "C12.msg_dispatch.post.message_is_queued_or_dispatched_never_dropped");
+    V_ASSERT(!(queued && !g_ready_done && tp.nb_tasks == 0), "C12.msg_dispatch.post.message_not_both_queued_and_dispatched");
+    (void)handled_directly;
+
+    /* the application thread eventually makes the taskpool ready (assumption of the property), if it has not yet */
+    if (!g_ready_done) {
+        g_tp_registered = 1; g_in_env = 1;
+        parsec_termdet_user_trigger_taskpool_ready(&tp);
+        g_in_env = 0; g_ready_done = 1;
+    }
+    /* exactly one handling of the notification on this process: 'the tasks' counted once (+1) and released once (-1) */
+    V_ASSERT(tp.nb_pending_actions == vin.pa, "C12.msg_dispatch.guar.notification_handled_exactly_once_whatever_the_timing");
+    V_ASSERT(mon.root == vin.msg_root && tp.nb_tasks == 0, "C12.msg_dispatch.guar.received_root_stored_whatever_the_timing");
+    V_ASSERT(delayed_len() == 0, "C12.msg_dispatch.guar.no_notification_left_in_the_queue_of_a_ready_taskpool");
+    V_ASSERT(g_cb_calls == (vin.pa == 0 ? 1 : 0), "C12.msg_dispatch.guar.broadcast_runs_once_iff_no_other_action_pending");
+    V_CANARY("msg_delayed_rg");
 }
